@@ -41,6 +41,8 @@ def prepare_home():
         return _HOME
     _HOME = tempfile.mkdtemp(prefix='c06home_')
     os.environ['HOME'] = _HOME
+    import atexit
+    atexit.register(shutil.rmtree, _HOME, True)
     from cherab.openadas.repository import utility
     if utility.DEFAULT_REPOSITORY_PATH != os.path.join(_HOME, '.cherab/openadas/repository'):
         raise InfraError('DEFAULT_REPOSITORY_PATH %s is not under the temporary HOME' % utility.DEFAULT_REPOSITORY_PATH)
